@@ -169,6 +169,7 @@ class Sess:
         return self._call('sess batch %d %s' % (self.slot, ' '.join(specs)))
 
     def tick(self): return self._call('sess tick %d' % self.slot)
+    def failnext(self, n=1): return self._call('sess failnext %d %d' % (self.slot, n))
     def obs(self): return self._call('sess obs %d' % self.slot)
     def stop(self): return self._call('sess stop %d' % self.slot)
     def delete(self): return self._call('sess del %d' % self.slot)
